@@ -295,7 +295,9 @@ fn main() {
         if sink.wanted() {
             let npools = rng.range(1, 50) as usize;
             let mut sd: BTreeMap<String, u64> = BTreeMap::new();
-            for _ in 0..npools { sd.insert(format!("pool1{}", hex(&rng.bytes(26))), rng.range(0, 1 << 40)); }
+            // pools WITHOUT stake are entries of the mapping like the others (every second distribution has some)
+            let zeros = rng.bool();
+            for _ in 0..npools { sd.insert(format!("pool1{}", hex(&rng.bytes(26))), if zeros && rng.chance(1, 3) { 0 } else if rng.chance(1, 8) { 1 } else { rng.range(0, 1 << 40) }); }
             let tree = CardanoStakeDistributionSignableBuilder::compute_merkle_tree_from_stake_distribution(sd.clone()).unwrap();
             let root = tree.compute_root().unwrap().to_vec();
             let leaves: Vec<Vec<u8>> = sd.iter().map(|(k, v)| format!("{}{}", k, v).into_bytes()).collect();
@@ -307,6 +309,20 @@ fn main() {
             for (what, e) in [("stake altered", e1), ("pool renamed", e2)] {
                 let r = CardanoStakeDistributionSignableBuilder::compute_merkle_tree_from_stake_distribution(e).unwrap().compute_root().unwrap().to_vec();
                 if r == root { sink.sfail(i, "stake-distribution", &format!("{}: same Merkle root", what), "stake distribution"); }
+            }
+            // a pool without stake added, removed, renamed: another mapping, so another root
+            {
+                let mut e4 = sd.clone(); e4.insert(format!("pool1{}", hex(&rng.bytes(26))), 0);
+                let mut edits = vec![("pool without stake added", e4)];
+                if let Some((kz, _)) = sd.iter().find(|(_, v)| **v == 0).map(|(k, v)| (k.clone(), *v)) {
+                    let mut e5 = sd.clone(); e5.remove(&kz); edits.push(("pool without stake removed", e5.clone()));
+                    e5.insert(format!("{}x", kz), 0); edits.push(("pool without stake renamed", e5));
+                    let mut e6 = sd.clone(); e6.insert(kz.clone(), 1); edits.push(("stake 0 altered to 1", e6));
+                }
+                for (what, e) in edits {
+                    let r = CardanoStakeDistributionSignableBuilder::compute_merkle_tree_from_stake_distribution(e).unwrap().compute_root().unwrap().to_vec();
+                    if r == root { sink.sfail(i, "stake-distribution", &format!("{}: same Merkle root", what), "stake distribution"); }
+                }
             }
             // moving a digit from the stake into the identifier: the known finding class
             let mut e3 = sd.clone(); e3.remove(&k0);
